@@ -208,8 +208,8 @@ def leaf_truncated(frame):
                 vend = min(vstart + ln, end)
                 if walk(vstart, vend, depth + 1):
                     return True
-                if top and tag == b'\x42\x00\x77':
-                    # Batch Count inside the request header
+                if top and tag in (b'\x42\x00\x77', b'\x42\x00\x7a'):
+                    # Batch Count inside the request / response header
                     q = vstart
                     while vend - q >= 16:
                         l2 = _s.unpack_from('!I', buf, q + 4)[0]
